@@ -85,7 +85,10 @@ class CustomFieldsGenerator:
 
     def generate(self) -> ast.Module:
         """Generates an AST module containing the custom fields and required imports."""
+        # imports of custom scalars are known only now: add them to the module too
+        known_imports = len(self.argument_generator.imports)
         self.argument_generator.add_custom_scalar_imports()
+        self._imports.extend(self.argument_generator.imports[known_imports:])
         module = generate_module(
             body=cast(List[ast.stmt], self._imports + self._class_defs),
         )
